@@ -125,13 +125,24 @@ class OrderSeam:
     """Serial hashes for identity-hashed classes.  ``reset`` is called at scope boundaries."""
     def __init__(self):
         self.counter = itertools.count(1)
+        self.uuid_counter = itertools.count(1)
         self.salt = 0
         self.patched = []
+        self.uuid_modules = []
 
     def reset(self, salt=None):
         self.counter = itertools.count(1)
+        self.uuid_counter = itertools.count(1)
         if salt is not None:
             self.salt = salt
+
+    def uuid4(self):
+        """Deterministic stand-in for uuid.uuid4 inside moPepGen.svgraph (node ids, subgraph ids): production
+        draws these from os.urandom, and they end up as str keys of sets/dicts whose iteration order steers the
+        graph algorithms.  Here they are a pure function of (creation order within the scope, salt)."""
+        import uuid
+        n = next(self.uuid_counter)
+        return uuid.UUID(int=(n * 0x9E3779B97F4A7C15F39CC0605CEDC835 + self.salt * 0x100000001B3) % (1 << 128))
 
     def install(self):
         import moPepGen
@@ -170,6 +181,21 @@ class OrderSeam:
                     except TypeError:
                         pass
         self.patched.sort()
+
+        class _UUIDShim:
+            """what the two svgraph modules see as the ``uuid`` module"""
+            def __getattr__(self_, name):          # pylint: disable=no-self-argument
+                import uuid
+                return getattr(uuid, name)
+
+            def uuid4(self_):                      # pylint: disable=no-self-argument
+                return seam.uuid4()
+        shim = _UUIDShim()
+        for mod in mods:
+            if mod.__name__.startswith('moPepGen.svgraph') and getattr(mod, 'uuid', None) is not None \
+                    and getattr(mod.uuid, '__name__', '') == 'uuid':
+                mod.uuid = shim
+                self.uuid_modules.append(mod.__name__)
         return self.patched
 
 
@@ -191,8 +217,13 @@ def boot(order_seam=True):
     logging.getLogger('moPepGen').setLevel(logging.CRITICAL + 10)
     logging.getLogger('moPepGen').disabled = True
     compat = _install_compat()
+    mutant = os.environ.get('VERIF_MUTANT')
+    if mutant:
+        # sensitivity self-test only: in-memory re-creation of a known breakage (sim/mutants.py)
+        from sim import mutants
+        mutants.install(mutant)
     patched = ORDER.install() if order_seam else []
-    _BOOTED.update(compat=compat, order_seam_classes=len(patched), repo=repo_real)
+    _BOOTED.update(compat=compat, order_seam_classes=len(patched), repo=repo_real, mutant=mutant)
     return _BOOTED
 
 
@@ -202,5 +233,6 @@ def components():
     return {
         'real': ['every module under /repo/moPepGen on the executed paths', 'filesystem', 'pickle'],
         'altered_by_compat_layer_L0': b['compat'],
-        'altered_by_order_seam': f"__hash__ of {b['order_seam_classes']} identity-hashed moPepGen classes",
+        'altered_by_order_seam': f"__hash__ of {b['order_seam_classes']} identity-hashed moPepGen classes; "
+                                 f"uuid.uuid4 as seen by {ORDER.uuid_modules} (deterministic ids)",
     }
